@@ -6,41 +6,62 @@
 (*  (3) non-vacuity: with a flag of TrafficFilterI set the ASSUME must fail.           *)
 EXTENDS TrafficFilterI, TLC, Json, SequencesExt
 
-D(h, kind, ip, v6, rsv) == [h |-> h, hlow |-> h, hcanon |-> h, kind |-> kind, ip |-> ip, v6 |-> v6, rsv |-> rsv]
+D(h, kind, ip, rsv) == [h |-> h, hlow |-> h, hcanon |-> h, kind |-> kind, ip |-> ip, ip6 |-> <<>>, rsv |-> rsv]
 \* a destination typed in another case than its canonical (lower-case) form
-DC(h, canon, kind, ip, v6, rsv) == [h |-> h, hlow |-> canon, hcanon |-> canon, kind |-> kind, ip |-> ip, v6 |-> v6, rsv |-> rsv]
+DC(h, canon, kind, ip, rsv) == [h |-> h, hlow |-> canon, hcanon |-> canon, kind |-> kind, ip |-> ip, ip6 |-> <<>>, rsv |-> rsv]
+\* an IPv6 literal: spelling, lower-case spelling, value (eight 16-bit groups)
+D6(h, low, g) == [h |-> h, hlow |-> low, hcanon |-> low, kind |-> "ip6", ip |-> <<>>, ip6 |-> g, rsv |-> "literal"]
 \* a list item as typed: raw, raw in lower case, the destination it denotes ("" = none), valid as typed / without blanks
 E(raw, low, canon, valid, tvalid) == [raw |-> raw, low |-> low, canon |-> canon, valid |-> valid, tvalid |-> tvalid]
 
 \* destinations asked about
 Hosts == <<
-    D("api.pub.com",   "name", <<93, 184, 216, 34>>, "", "ok"),
-    D("db.corp",       "name", <<10, 1, 2, 3>>,      "", "ok"),
-    D("lo.corp",       "name", <<127, 0, 0, 5>>,     "", "ok"),
-    D("k8s.corp",      "name", <<172, 16, 5, 4>>,    "", "ok"),
-    D("edge.corp",     "name", <<172, 31, 255, 255>>,"", "ok"),
-    D("out.corp",      "name", <<172, 32, 0, 1>>,    "", "ok"),
-    D("lan.corp",      "name", <<192, 168, 1, 9>>,   "", "ok"),
-    D("near.corp",     "name", <<192, 169, 0, 1>>,   "", "ok"),
-    D("hundred.corp",  "name", <<100, 1, 1, 1>>,     "", "ok"),
-    D("onetwenty.corp","name", <<120, 0, 0, 1>>,     "", "ok"),
-    D("localhost",     "name", <<127, 0, 0, 1>>,     "", "ok"),
-    D("nx.invalid",    "name", <<>>,                 "", "fail"),
-    D("a..b",          "junk", <<>>,                 "", "unicode"),
-    D("not a host!",   "junk", <<>>,                 "", "fail"),
-    D("256.1.1.1",     "junk", <<>>,                 "", "fail"),
-    DC("None", "none", "name", <<>>,                 "", "fail"),
-    DC("API.PUB.COM", "api.pub.com", "name", <<93, 184, 216, 34>>, "", "ok"),
-    D("8.8.8.8",       "ip4",  <<8, 8, 8, 8>>,       "", "literal"),
-    D("10.0.0.7",      "ip4",  <<10, 0, 0, 7>>,      "", "literal"),
-    D("11.0.0.1",      "ip4",  <<11, 0, 0, 1>>,      "", "literal"),
-    D("127.0.0.1",     "ip4",  <<127, 0, 0, 1>>,     "", "literal"),
-    D("172.20.1.1",    "ip4",  <<172, 20, 1, 1>>,    "", "literal"),
-    D("172.15.1.1",    "ip4",  <<172, 15, 1, 1>>,    "", "literal"),
-    D("192.168.0.1",   "ip4",  <<192, 168, 0, 1>>,   "", "literal"),
-    D("193.168.0.1",   "ip4",  <<193, 168, 0, 1>>,   "", "literal"),
-    D("::1",           "ip6",  <<>>,                 "loopback", "literal"),
-    D("2606:4700::1111","ip6", <<>>,                 "global",   "literal")
+    D("api.pub.com",   "name", <<93, 184, 216, 34>>, "ok"),
+    D("db.corp",       "name", <<10, 1, 2, 3>>, "ok"),
+    D("lo.corp",       "name", <<127, 0, 0, 5>>, "ok"),
+    D("k8s.corp",      "name", <<172, 16, 5, 4>>, "ok"),
+    D("edge.corp",     "name", <<172, 31, 255, 255>>, "ok"),
+    D("out.corp",      "name", <<172, 32, 0, 1>>, "ok"),
+    D("lan.corp",      "name", <<192, 168, 1, 9>>, "ok"),
+    D("near.corp",     "name", <<192, 169, 0, 1>>, "ok"),
+    D("hundred.corp",  "name", <<100, 1, 1, 1>>, "ok"),
+    D("onetwenty.corp","name", <<120, 0, 0, 1>>, "ok"),
+    D("localhost",     "name", <<127, 0, 0, 1>>, "ok"),
+    D("nx.invalid",    "name", <<>>, "fail"),
+    D("a..b",          "junk", <<>>, "unicode"),
+    D("not a host!",   "junk", <<>>, "fail"),
+    D("256.1.1.1",     "junk", <<>>, "fail"),
+    DC("None", "none", "name", <<>>, "fail"),
+    DC("API.PUB.COM", "api.pub.com", "name", <<93, 184, 216, 34>>, "ok"),
+    D("8.8.8.8",       "ip4",  <<8, 8, 8, 8>>, "literal"),
+    D("10.0.0.7",      "ip4",  <<10, 0, 0, 7>>, "literal"),
+    D("11.0.0.1",      "ip4",  <<11, 0, 0, 1>>, "literal"),
+    D("127.0.0.1",     "ip4",  <<127, 0, 0, 1>>, "literal"),
+    D("172.20.1.1",    "ip4",  <<172, 20, 1, 1>>, "literal"),
+    D("172.15.1.1",    "ip4",  <<172, 15, 1, 1>>, "literal"),
+    D("192.168.0.1",   "ip4",  <<192, 168, 0, 1>>, "literal"),
+    D("193.168.0.1",   "ip4",  <<193, 168, 0, 1>>, "literal"),
+    D("127.1",         "name", <<127, 0, 0, 1>>, "ok"),                  \* inet_aton spellings are resolved by gethostbyname
+    D("[::1]",         "junk", <<>>, "fail"),                            \* bracketed / zoned forms are not address literals here
+    D("fe80::1%eth0",  "junk", <<>>, "fail"),
+    D6("::1",                    "::1",                    <<0, 0, 0, 0, 0, 0, 0, 1>>),
+    D6("0:0:0:0:0:0:0:1",        "0:0:0:0:0:0:0:1",        <<0, 0, 0, 0, 0, 0, 0, 1>>),
+    D6("fe80::1",                "fe80::1",                <<65152, 0, 0, 0, 0, 0, 0, 1>>),
+    D6("FE80::ABCD",             "fe80::abcd",             <<65152, 0, 0, 0, 0, 0, 0, 43981>>),
+    D6("febf::1",                "febf::1",                <<65215, 0, 0, 0, 0, 0, 0, 1>>),
+    D6("fc00::1",                "fc00::1",                <<64512, 0, 0, 0, 0, 0, 0, 1>>),
+    D6("fd12:3456:789a::1",      "fd12:3456:789a::1",      <<64786, 13398, 30874, 0, 0, 0, 0, 1>>),
+    D6("::ffff:127.0.0.1",       "::ffff:127.0.0.1",       <<0, 0, 0, 0, 0, 65535, 32512, 1>>),
+    D6("::ffff:7f00:1",          "::ffff:7f00:1",          <<0, 0, 0, 0, 0, 65535, 32512, 1>>),
+    D6("::ffff:10.1.2.3",        "::ffff:10.1.2.3",        <<0, 0, 0, 0, 0, 65535, 2561, 515>>),
+    D6("0:0:0:0:0:ffff:a01:203", "0:0:0:0:0:ffff:a01:203", <<0, 0, 0, 0, 0, 65535, 2561, 515>>),
+    D6("::FFFF:192.168.1.1",     "::ffff:192.168.1.1",     <<0, 0, 0, 0, 0, 65535, 49320, 257>>),
+    D6("::ffff:172.16.0.9",      "::ffff:172.16.0.9",      <<0, 0, 0, 0, 0, 65535, 44048, 9>>),
+    D6("::ffff:172.32.0.9",      "::ffff:172.32.0.9",      <<0, 0, 0, 0, 0, 65535, 44064, 9>>),
+    D6("::ffff:8.8.8.8",         "::ffff:8.8.8.8",         <<0, 0, 0, 0, 0, 65535, 2056, 2056>>),
+    D6("::10.0.0.7",             "::10.0.0.7",             <<0, 0, 0, 0, 0, 0, 2560, 7>>),
+    D6("::",                     "::",                     <<0, 0, 0, 0, 0, 0, 0, 0>>),
+    D6("2606:4700::1111",        "2606:4700::1111",        <<9734, 18176, 0, 0, 0, 0, 0, 4369>>)
 >>
 
 \* items the lists are built from: plain items, an invalid one, and the ways a list gets typed - blanks around an item
@@ -71,7 +92,7 @@ Lists == LET n == Len(Items) IN
            \cup {<<Item(p[1]), Item(p[2])>> : p \in {q \in (1..n) \X (1..n) : q[1] < q[2]}}
 
 Case(d, a, b, hd, res) ==
-    [allow |-> a, block |-> b, host |-> d.h, hlow |-> d.hlow, hcanon |-> d.hcanon, kind |-> d.kind, ip |-> d.ip, v6 |-> d.v6, rsv |-> d.rsv,
+    [allow |-> a, block |-> b, host |-> d.h, hlow |-> d.hlow, hcanon |-> d.hcanon, kind |-> d.kind, ip |-> d.ip, ip6 |-> d.ip6, rsv |-> d.rsv,
      header |-> hd, res |-> res]
 
 Input(d, a, b, hd) == Case(d, a, b, hd, "")
@@ -84,11 +105,16 @@ Refines ==
 NCases == Cardinality(Lists) * Cardinality(Lists) * Len(Hosts) * Len(Headers)
 
 \* cases on which the property actually forbids routing, and on which it leaves the answer free
-NMustNot == Cardinality({<<a, b, i, k>> \in Lists \X Lists \X (DOMAIN Hosts) \X (DOMAIN Headers) :
-                MustNotRoute(Input(Hosts[i], a, b, Headers[k]))})
+\* (summed per allow list: TLC builds the counted sets explicitly, limit 10^6 elements)
+NMustNot == LET LS == SetToSeq(Lists)
+                N[k \in 0..Len(LS)] ==
+                    IF k = 0 THEN 0
+                    ELSE N[k - 1] + Cardinality({<<b, i, h>> \in Lists \X (DOMAIN Hosts) \X (DOMAIN Headers) :
+                                                  MustNotRoute(Input(Hosts[i], LS[k], b, Headers[h]))})
+            IN  N[Len(LS)]
 
-ASSUME PrintT(<<"FILTER-CASES", NCases, NMustNot>>)
 ASSUME Refines
+ASSUME PrintT(<<"FILTER-CASES", NCases, NMustNot>>)
 
 \* (2) the input space, for replay
 ListSeq == SetToSeq(Lists)
